@@ -564,6 +564,160 @@ impl Driver {
     }
 }
 
+// ------------------------------------------------------------------------------------ admin console
+//
+// {"mode":"admin","id":..,"path":"/verif/.cache/tmp/c16/x.toml","grace_ms":300,"ops":[
+//    {"op":"config","toml":"..."}            write the file, config::parse + ConnectionPool::from_config (main.rs start-up)
+//    {"op":"write_config","toml":"..."}      rewrite the file only (a later admin RELOAD picks it up)
+//    {"op":"admin","sql":"PAUSE db,u"}       the REAL pgcat::admin::handle_admin on an in-memory stream
+//    {"op":"connect","client":0,"db":"db","user":"u"}   client.rs Client::handle `pool = self.get_pool()` at session start
+//    {"op":"query","client":0}               Client::handle `pool.wait_paused().await` on the pool the session holds,
+//                                            then (if it returns) `pool = self.get_pool()`
+//    {"op":"observe"} ]}
+// One scenario per process (CONFIG and POOLS are process globals).  Hooks stay disarmed.
+
+fn replies(buf: &[u8]) -> Vec<Value> {
+    let mut out = Vec::new();
+    let mut i = 0;
+    while i + 5 <= buf.len() {
+        let code = buf[i] as char;
+        let len = i32::from_be_bytes([buf[i + 1], buf[i + 2], buf[i + 3], buf[i + 4]]) as usize;
+        if len < 4 || i + 1 + len > buf.len() {
+            break;
+        }
+        let body = &buf[i + 5..i + 1 + len];
+        match code {
+            'C' => out.push(json!({"C": String::from_utf8_lossy(&body[..body.len().saturating_sub(1)])})),
+            'E' => {
+                let txt = String::from_utf8_lossy(body).to_string();
+                let msg = txt.split('\0').find(|f| f.starts_with('M')).map(|f| f[1..].to_string()).unwrap_or(txt);
+                out.push(json!({"E": msg}));
+            }
+            'Z' => out.push(json!("Z")),
+            _ => {}
+        }
+        i += 1 + len;
+    }
+    out
+}
+
+fn admin_mode(d: &Driver, req: &Value) -> Value {
+    use bytes::{BufMut, BytesMut};
+    hooks::arm(false);
+    let path = req["path"].as_str().unwrap_or("/verif/.cache/tmp/c16/admin.toml").to_string();
+    let grace = req["grace_ms"].as_u64().unwrap_or(300);
+    let rt = tokio::runtime::Builder::new_multi_thread().worker_threads(1).enable_all().build().unwrap();
+    let csm: pgcat::pool::ClientServerMap = Arc::new(parking_lot::Mutex::new(std::collections::HashMap::new()));
+    let mut held: Vec<Option<(String, String, ConnectionPool)>> = vec![None; MAXC];
+    let mut started = vec![false; MAXC];
+    let mut old_pools: Vec<(String, ConnectionPool)> = Vec::new();
+    let mut trace = Vec::new();
+    let observe = |held: &Vec<Option<(String, String, ConnectionPool)>>, started: &Vec<bool>| -> Value {
+        let g = d.sh.m.lock().unwrap();
+        let clients: Vec<Value> = (0..MAXC)
+            .filter(|i| held[*i].is_some())
+            .map(|i| {
+                let st = if !started[i] { "idle" } else { match g[i].s { S::Blocked => "blocked", S::Done => "passed", _ => "running" } };
+                json!({"client": i, "status": st, "session_pool_paused": held[i].as_ref().unwrap().2.paused()})
+            })
+            .collect();
+        let mut pools: Vec<Value> = pgcat::pool::get_all_pools()
+            .iter()
+            .map(|(id, p)| json!({"pool": format!("{}", id), "paused": p.paused()}))
+            .collect();
+        pools.sort_by_key(|v| v["pool"].as_str().unwrap_or("").to_string());
+        json!({"clients": clients, "pools": pools})
+    };
+    for op in req["ops"].as_array().cloned().unwrap_or_default() {
+        let name = op["op"].as_str().unwrap_or("");
+        let res: Value = match name {
+            "config" | "write_config" => {
+                std::fs::write(&path, op["toml"].as_str().unwrap_or("")).unwrap();
+                if name == "config" {
+                    let r = rt.block_on(async {
+                        pgcat::config::parse(&path).await.map_err(|e| format!("{:?}", e))?;
+                        ConnectionPool::from_config(csm.clone()).await.map_err(|e| format!("{:?}", e))
+                    });
+                    json!({"ok": r.is_ok(), "err": r.err()})
+                } else {
+                    json!({"ok": true})
+                }
+            }
+            "admin" => {
+                let sql = op["sql"].as_str().unwrap_or("");
+                let mut q = BytesMut::new();
+                q.put_u8(b'Q');
+                q.put_i32(sql.len() as i32 + 5);
+                q.put_slice(sql.as_bytes());
+                q.put_u8(0);
+                for (_, p) in pgcat::pool::get_all_pools() {
+                    old_pools.push((sql.to_string(), p));
+                }
+                let mut out: Vec<u8> = Vec::new();
+                let r = rt.block_on(pgcat::admin::handle_admin(&mut out, q, csm.clone()));
+                json!({"ok": r.is_ok(), "err": r.err().map(|e| format!("{:?}", e)), "reply": replies(&out)})
+            }
+            "connect" => {
+                let i = op["client"].as_u64().unwrap_or(0) as usize;
+                let (db, user) = (op["db"].as_str().unwrap_or("").to_string(), op["user"].as_str().unwrap_or("").to_string());
+                match pgcat::pool::get_pool(&db, &user) {
+                    Some(p) => {
+                        held[i] = Some((db, user, p));
+                        json!({"ok": true})
+                    }
+                    None => json!({"ok": false, "err": "no such pool"}),
+                }
+            }
+            "query" => {
+                let i = op["client"].as_u64().unwrap_or(0) as usize;
+                match &held[i] {
+                    Some((_, _, p)) => {
+                        {
+                            let mut g = d.sh.m.lock().unwrap();
+                            g[i] = Slot { s: S::Running, wake_pending: false, ret: None, wakes: 0, polls: 0 };
+                        }
+                        started[i] = true;
+                        d.ctx[i].send(Gate::Real(p.clone())).unwrap();
+                        let settled = d.sh.wait_until(i, |s| s.s == S::Blocked || s.s == S::Done, STEP_TIMEOUT_MS);
+                        json!({"ok": settled})
+                    }
+                    None => json!({"ok": false, "err": "client not connected"}),
+                }
+            }
+            "observe" => json!({"ok": true}),
+            _ => json!({"ok": false, "err": "unknown op"}),
+        };
+        // Client::handle: a session whose wait_paused() returned refreshes its pool
+        for i in 0..MAXC {
+            if started[i] && d.sh.m.lock().unwrap()[i].s == S::Done {
+                if let Some((db, user, _)) = held[i].clone() {
+                    if let Some(p) = pgcat::pool::get_pool(&db, &user) {
+                        held[i] = Some((db, user, p));
+                    }
+                }
+            }
+        }
+        trace.push(json!({"op": op, "res": res, "obs": observe(&held, &started)}));
+    }
+    std::thread::sleep(Duration::from_millis(grace));
+    let fin = observe(&held, &started);
+    // clean-up: release whoever is still blocked, directly on the pool object its session holds
+    for i in 0..MAXC {
+        if let Some((_, _, p)) = &held[i] {
+            if started[i] {
+                let deadline = Instant::now() + Duration::from_millis(STEP_TIMEOUT_MS);
+                while d.sh.m.lock().unwrap()[i].s != S::Done && Instant::now() < deadline {
+                    p.resume();
+                    std::thread::sleep(Duration::from_millis(1));
+                }
+            }
+        }
+    }
+    let _ = std::fs::remove_file(&path);
+    std::mem::forget(rt);
+    json!({"id": req["id"], "trace": trace, "final": fin})
+}
+
 // ------------------------------------------------------------------------------------ races
 
 #[derive(Clone, Debug)]
@@ -816,6 +970,12 @@ fn main() {
         };
         let out = match req["mode"].as_str().unwrap_or("schedule") {
             "race" => race(&req),
+            "admin" => {
+                if driver.is_none() {
+                    driver = Some(Driver::new());
+                }
+                admin_mode(driver.as_ref().unwrap(), &req)
+            }
             _ => {
                 if driver.is_none() {
                     driver = Some(Driver::new());
